@@ -3,7 +3,8 @@ import collections
 import itertools
 import json
 
-from lib.gallina import gbool, glist, gN
+from lib import pyvals as pv
+from lib.gallina import gbool, glist, gN, gZ
 from lib.gallina import gnat as _gnat
 
 ID = "C12"
@@ -18,7 +19,13 @@ RULE = ("one case = one workload (1-3 producers, set_data/add_metadata/save on 1
         "long histories run under token schedules that leave hundreds to thousands of requests pending when close() is "
         "called (timer never fires / flusher inside a storage call while the burst arrives / one big batch flushed midway / "
         "timer fires a few times), input_distribution shows pending-at-close:* and largest-flush-batch:* as measured on the "
-        "implementation's trace; non-trivial = at least two requests; distinct = distinct (workload, schedule)")
+        "implementation's trace; values: unique ints in the schedule-oriented streams, and a value-shape stream (one "
+        "deterministic probe + random workloads) whose values are None, booleans / ints / floats that compare equal "
+        "(0, False, 0.0, -0.0; 1, True, 1.0), containers that compare equal ([0] / [False], {a: 1} / {a: True}), empty "
+        "str / list / dict / tuple, the same value written again - stored values are compared with their types, in the "
+        "direct predicate and in Coq (val := pyval); input_distribution shows value:*, same-value-written-again, "
+        "overwritten-by-==-value-of-other-type, None-written-to-new-key; "
+        "non-trivial = at least two requests; distinct = distinct (workload, schedule)")
 EXHAUSTIVE = {"quick": True, "thorough": True}
 ASSUMPTIONS = [
     "atomic-step reduction: lock-protected regions are atomic and steps on disjoint state commute (gated by the ast check "
@@ -31,9 +38,16 @@ ASSUMPTIONS = [
     "wrapped storage failures are Exceptions (a BaseException would end the flusher thread)",
     "requests are issued through set_data / add_metadata / save_recording (Recording.__setitem__ bypasses the closed "
     "check of the AsyncRecording and is outside the modelled request alphabet)",
-    "data values passed to set_data are immutable atoms in the model (the in-memory recording keeps references in both "
-    "worlds; a caller mutating a value object between the request and the flush is outside the modelled domain); "
-    "metadata dicts may be changed by the caller after the call (AddMetaMut) - covered since /repo ba7c02c"]
+    "values are never mutated by the caller after the call: the model's values are immutable trees (pyval: None, bool, "
+    "int, float, str, list, tuple, dict - with their types), the in-memory recording keeps references in both "
+    "worlds; a caller mutating a value object between the request and the flush is outside the modelled domain; "
+    "metadata dicts may be changed by the caller after the call (AddMetaMut) - covered since /repo ba7c02c",
+    "value domain exercised: the 27 shaped values of SHAPED (None, False/True, 0/1/2, 0.0/-0.0/1.0/2.5, '', 'a', '1', "
+    "empty and one-element list / tuple / dict, [[]], [None], {a: None}) and unique ints; NaN (not equal to itself), "
+    "sets, objects with a custom __eq__ and str-vs-bytes are not drawn",
+    "a write that repeats what the recording already holds counts as a write: the predicate reports lost-op when it "
+    "does not reach the wrapped cassette (the property says every write is applied exactly once), even though the "
+    "stored recording would be the same"]
 TRUSTED = ["cooperative scheduler of the driver (one OS thread per logical thread, exactly one running; Thread/Lock/Event "
            "of the module under test substituted as module attributes; sys.settrace line stepping)",
            "spy subclass of the real InMemoryTapeCassette / MemoryRecording as wrapped storage",
@@ -88,20 +102,36 @@ def op_save(rec, fail=0):
     return d
 
 
+def vkey(v):
+    """hashable, type-exact form of a workload value (plain int, or tagged value of lib.pyvals)"""
+    return v if type(v) is int else json.dumps(v, sort_keys=True)
+
+
+def op_class(op):
+    """what the wrapped cassette can tell about a request: recording, kind, arguments (a metadata call by its first
+    item, as the driver's spy does).  Requests of one class are interchangeable there."""
+    if op["k"] == "set":
+        return (op["rec"], "set", op["key"], vkey(op["val"]))
+    if op["k"] == "save":
+        return (op["rec"], "save")
+    return (op["rec"], "meta") + tuple((k, vkey(v)) for k, v in op["items"][:1])
+
+
 def normalise(work):
-    """identical requests (saves of one recording) share their failure flag: the spy decides by content"""
+    """identical requests (saves of one recording, repeated writes of one value) share their failure flag: the spy
+    decides by content"""
     fl = {}
     for ops in work:
         for op in ops:
-            if op["k"] == "save" and op.get("fail"):
-                fl[op["rec"]] = op["fail"]
+            if op.get("fail"):
+                fl[op_class(op)] = op["fail"]
+    if not fl:
+        return work
     for ops in work:
         for op in ops:
-            if op["k"] == "save":
-                if op["rec"] in fl:
-                    op["fail"] = fl[op["rec"]]
-                else:
-                    op.pop("fail", None)
+            c = op_class(op)
+            if c in fl:
+                op["fail"] = fl[c]
     return work
 
 
@@ -322,6 +352,158 @@ W_ALIAS2 = [[op_set(0, 0, 0, 0), op_metamut(0, [0, 1], 1, 0, 1), op_save(0)], [o
 W_RESET = [[op_set(0, 0, 0, 0), op_set(0, 0, 0, 1), op_set(0, 1, 0, 2), op_save(0)]]    # same key twice in one recording
 
 
+# --------------------------------------------------------------------------------------------------
+# value shapes: "stores exactly what synchronous recording would" is about the values WITH their types
+# --------------------------------------------------------------------------------------------------
+def _fl(text):
+    return {"t": "float", "r": text}
+
+
+# groups of values that compare equal in Python (==) and are different recorded values
+EQ_GROUPS = [
+    ("zero", [0, pv.b(False), _fl("0.0"), _fl("-0.0")]),
+    ("one", [1, pv.b(True), _fl("1.0")]),
+    ("none", [pv.none()]),                                  # dict.get(absent key) == None
+    ("list", [pv.lst([pv.i(0)]), pv.lst([pv.b(False)]), pv.lst([_fl("0.0")])]),
+    ("dict", [pv.dct([("a", pv.i(1))]), pv.dct([("a", pv.b(True))]), pv.dct([("a", _fl("1.0"))])]),
+    ("tuple", [pv.tup([pv.i(1)]), pv.tup([pv.b(True)])]),
+    ("str", [pv.s("a")]),
+]
+# values that are false in a boolean context (a filter on truthiness / emptiness drops them)
+FALSY = [pv.none(), 0, pv.b(False), _fl("0.0"), pv.s(""), pv.lst([]), pv.dct([]), pv.tup([])]
+SHAPED = []
+for _g, _vs in EQ_GROUPS + [("falsy", FALSY)]:
+    for _v in _vs:
+        if not any(vkey(_v) == vkey(_x) for _x in SHAPED):
+            SHAPED.append(_v)
+SHAPED += [2, _fl("2.5"), pv.s("1"), pv.lst([pv.none()]), pv.dct([("a", pv.none())]), pv.lst([pv.lst([])])]
+
+
+def vtype(v):
+    return "int" if type(v) is int else v["t"]
+
+
+def py_equal(a, b):
+    """Python's == on two workload values"""
+    return bool((pv.to_py(a) if isinstance(a, dict) else a) == (pv.to_py(b) if isinstance(b, dict) else b))
+
+
+def op_setv(rec, key, val, fail=0):
+    d = dict(rec=rec, k="set", key=key, val=val)
+    if fail:
+        d["fail"] = fail
+    return d
+
+
+def op_metav(rec, items, fail=0):
+    d = dict(rec=rec, k="meta", items=[[k, v] for k, v in items])
+    if fail:
+        d["fail"] = fail
+    return d
+
+
+def shape_probes():
+    """The deterministic part of the value-shape region (always run, both tiers), one producer, one recording:
+      * overwrite: key written with a, then with b, for every ordered pair (a, b) of a group of ==-equal values and
+        of the falsy values - including a == b exactly (the same write repeated) - as metadata and as data;
+      * first write: every shaped value as the first value of a key (alone; next to an ordinary item; as data), also
+        without a save (the wrapped recording object is compared);
+      * the same items added again after other writes changed the recording in between."""
+    out, seen = [], set()
+
+    def add(label, work):
+        k = json.dumps(work, sort_keys=True)
+        if k not in seen:
+            seen.add(k)
+            out.append((label, work))
+    for g, vals in EQ_GROUPS + [("falsy", FALSY)]:
+        for a in vals:
+            for b in vals:
+                lab = "repeat" if vkey(a) == vkey(b) else "overwrite-" + g
+                add(lab, [[op_metav(0, [(0, a)]), op_metav(0, [(0, b)]), op_save(0)]])
+                add(lab, [[op_setv(0, 0, a), op_setv(0, 0, b), op_save(0)]])
+    for j, v in enumerate(SHAPED):
+        add("first-write", [[op_metav(0, [(0, v)]), op_save(0)]])
+        add("first-write", [[op_metav(0, [(0, _val(0, 0)), (1, v)]), op_save(0)]])
+        add("first-write", [[op_setv(0, 0, v), op_save(0)]])
+        add("first-write", [[op_setv(0, 0, v), op_metav(0, [(1, v)])]])
+        w = SHAPED[(j + 5) % len(SHAPED)]
+        add("write-again", [[op_metav(0, [(0, v), (1, w)]), op_metav(0, [(1, v)]), op_metav(0, [(0, v), (1, w)]), op_save(0)]])
+        add("write-again", [[op_setv(0, 0, v), op_setv(0, 0, w), op_setv(0, 0, v), op_save(0)]])
+    return out
+
+
+def shape_tokens(work, flushed):
+    """one producer: all requests, then close - either without any flusher step in between (everything applied by the
+    final flush) or with a complete flush cycle after every request (the wrapped recording is up to date before the
+    next request)"""
+    toks = []
+    for _ in range(nops(work)):
+        toks += [["P", 0]] + ([["F"]] * 8 if flushed else [])
+    return toks + [["C"]]
+
+
+def rand_value(rng, p, i, j=0, pshape=0.75):
+    return rng.choice(SHAPED) if rng.random() < pshape else _val(p, i, j)
+
+
+def rand_shape_work(rng, nprod, max_ops, nrec, pfail=0.1, after_save=0.1):
+    """random workloads like rand_work, values mostly from the shaped pool, two keys (so that overwrites and repeated
+    writes are frequent)"""
+    work = []
+    for p in range(nprod):
+        ops, saved = [], set()
+        for i in range(rng.randrange(2, max_ops + 1)):
+            rec = rng.randrange(nrec)
+            if rec in saved and rng.random() > after_save:
+                free = [r for r in range(nrec) if r not in saved]
+                if not free:
+                    break
+                rec = rng.choice(free)
+            fail = rng.randrange(1, 5) if rng.random() < pfail else 0
+            x = rng.random()
+            if x < 0.35:
+                ops.append(op_setv(rec, rng.randrange(2), rand_value(rng, p, i), fail))
+            elif x < 0.8:
+                ks = rng.sample(range(3), rng.randrange(1, 4))
+                ops.append(op_metav(rec, [(k, rand_value(rng, p, i, j)) for j, k in enumerate(ks)], fail))
+            elif x < 0.87:
+                ks = rng.sample(range(3), rng.randrange(1, 3))
+                d = op_metamut(rec, ks, rng.randrange(3), p, i, fail)
+                d["items"] = [[k, rand_value(rng, p, i, j)] for j, k in enumerate(ks)]
+                ops.append(d)
+            else:
+                ops.append(op_save(rec, fail))
+                saved.add(rec)
+        work.append(ops)
+    return normalise(work)
+
+
+def shape_cases(rng, quick):
+    out = []
+    for label, work in shape_probes():
+        for flushed in (False, True):
+            out.append(mk(work, dict(kind="tokens", tokens=shape_tokens(work, flushed)), "value-shapes-" + label))
+    for _ in range(200 if quick else 1500):
+        w = rand_shape_work(rng, rng.randrange(1, 4), 6, rng.randrange(1, 3))
+        out.append(mk(w, dict(kind="tokens", tokens=rand_tokens(rng, w)), "value-shapes-random"))
+    return out
+
+
+def shape_walks(rng, quick):
+    out = []
+    for j in range(4 if quick else 24):
+        w = rand_shape_work(rng, 1 + j % 3, 5, 1 + j % 2)
+        gran = "line" if j % 2 else "atomic"
+        out.append(mk(w, dict(kind="random", gran=gran, seed=rng.randrange(10**6), runs=30 if quick else 120,
+                              p=rng.choice([0.05, 0.15, 0.3])), "value-shapes-random-" + gran))
+    if not quick:       # free-running real threads: direct predicate only, must reproduce in every repetition
+        for j in range(6):
+            w = rand_shape_work(rng, 1 + j % 3, 6, 1 + j % 2, after_save=0.0)
+            out.append(mk(w, dict(kind="threads", runs=3, delay=[0.0, 0.003][j % 2], switch=1e-5), "value-shapes-real-threads"))
+    return out
+
+
 def generate(rng, tier):
     quick = tier == "quick"
     light, heavy = [], []
@@ -383,6 +565,13 @@ def generate(rng, tier):
                             "long-history-real-threads"))
     for j, c in enumerate(longs):          # spread between the random walks
         heavy.insert(min(len(heavy), len(heavy) - 2 * j), c)
+    # 7. value shapes (None, bool / int / float that compare equal, empty containers, repeated equal writes): a
+    #    deterministic probe of overwrite pairs / first writes under two schedules, random shaped workloads under random
+    #    token schedules, a few random walks (drawn after everything else: the streams above are unchanged)
+    light += shape_cases(rng, quick)
+    walks = shape_walks(rng, quick)
+    for j, c in enumerate(walks):
+        heavy.insert(min(len(heavy), 3 + 5 * j), c)
     # spread the heavy cases evenly (the driver is sharded over contiguous chunks), the explorations - heaviest - first
     expl = [c for c in heavy if c["sched"]["kind"] == "explore"]
     expl.sort(key=lambda c: -c["sched"]["max_runs"] * {"atomic": 1, "line": 2, "opcode": 2}[c["sched"]["gran"]])
@@ -408,8 +597,13 @@ def generate(rng, tier):
 # --------------------------------------------------------------------------------------------------
 # Gallina
 # --------------------------------------------------------------------------------------------------
+def g_val(v):
+    """a recorded value as Values.PyVal.pyval: a plain JSON int is exactly an int, everything else arrives tagged"""
+    return "(VInt %s)" % gZ(v) if type(v) is int else pv.to_pyval(v)
+
+
 def g_dict(items):
-    return glist(["(%s, %s)" % (gN(k), gN(v)) for k, v in items])
+    return glist(["(%s, %s)" % (gN(k), g_val(v)) for k, v in items])
 
 
 def gnat(n):
@@ -419,11 +613,11 @@ def gnat(n):
 
 def g_op(i, op):
     if op["k"] == "set":
-        kind = "(SetData %s %s)" % (gN(op["key"]), gN(op["val"]))
+        kind = "(SetData %s %s)" % (gN(op["key"]), g_val(op["val"]))
     elif op["k"] == "meta":
         kind = "(AddMeta %s)" % g_dict(op["items"])
     elif op["k"] == "metamut":
-        kind = "(AddMetaMut %s %s %s)" % (g_dict(op["items"]), gN(op["mkey"]), gN(op["mval"]))
+        kind = "(AddMetaMut %s %s %s)" % (g_dict(op["items"]), gN(op["mkey"]), g_val(op["mval"]))
     else:
         kind = "Save"
     return "(Op %s %s %s %s)" % (gnat(i), gnat(op["rec"]), kind, gbool(bool(op.get("fail"))))
@@ -533,8 +727,9 @@ def run_failures(case, r):
         add("applied-unaccepted-op", "operations reached the wrapped cassette whose request did not return normally: %s" % extra[:6])
     if r.get("phantom"):
         add("phantom-op", "the wrapped cassette received calls nobody requested: %s" % r["phantom"][:4])
-    # order checks.  Identical requests (saves of one recording by several producers) cannot be told apart at the
-    # wrapped cassette: the order is wrong only if no attribution of those calls to the requests satisfies the checks.
+    # order checks.  Identical requests (saves of one recording by several producers, repeated writes of one value)
+    # cannot be told apart at the wrapped cassette: the order is wrong only if no attribution of those calls to the
+    # requests satisfies the checks.
     begin, end = {}, {}
     if "stamps" in r:
         for p, i, b, e in r["stamps"]:
@@ -570,21 +765,22 @@ def run_failures(case, r):
         return out
     classes = {}
     for k, (p, i) in enumerate(app):
-        if 0 <= p < len(work) and i < len(work[p]) and work[p][i]["k"] == "save":
-            classes.setdefault(work[p][i]["rec"], []).append(k)
-    classes = [ks for ks in classes.values() if len(set(app[k] for k in ks)) > 1]
-    first = None
-    for n, perms in enumerate(itertools.product(*[list(itertools.permutations(ks)) for ks in classes])):
-        lab = list(app)
-        for ks, pk in zip(classes, perms):
-            for dst, src in zip(ks, pk):
-                lab[dst] = app[src]
-        of = order_failures(lab)
-        if first is None:
-            first = of
-        if not of or n > 300:
-            first = of if not of else first
-            break
+        if 0 <= p < len(work) and i < len(work[p]):
+            classes.setdefault(op_class(work[p][i]), []).append(k)
+    classes = [ks for ks in classes.values() if 1 < len(set(app[k] for k in ks)) and len(ks) <= 6]
+    first = order_failures(app)
+    if first and classes:
+        for n, perms in enumerate(itertools.product(*[itertools.permutations(ks) for ks in classes])):
+            lab = list(app)
+            for ks, pk in zip(classes, perms):
+                for dst, src in zip(ks, pk):
+                    lab[dst] = app[src]
+            of = order_failures(lab)
+            if not of:
+                first = of
+                break
+            if n > 300:
+                break
     for sig, msg in first or []:
         add(sig, msg)
     # contents against the synchronous twin
@@ -810,10 +1006,40 @@ def features(case):
                 f.add("write-after-own-save")
             if op["k"] == "save":
                 seen.add(op["rec"])
+    f |= shape_features(w)
+    if case.get("label", "").startswith("value-shapes"):
+        f.add("stream:" + case["label"])
     if sc["kind"] == "tokens":
         toks = sc["tokens"]
         if any(a[0] == "P" and b[0] == "F" for a, b in zip(toks, toks[1:])) and any(a[0] == "F" and b[0] == "P" for a, b in zip(toks, toks[1:])):
             f.add("requests-interleaved-with-flusher-steps")
+    return f
+
+
+def shape_features(work):
+    """which part of the value-shape region a workload touches (per producer, in its request order: what a key of a
+    recording held when it is written again)"""
+    f = set()
+    for ops in work:
+        last = {}
+        for op in ops:
+            if op["k"] == "save":
+                continue
+            items = [[op["key"], op["val"]]] if op["k"] == "set" else op["items"]
+            for k, v in items:
+                t = vtype(v)
+                if t != "int":
+                    f.add("value:" + ("empty-" + t if t in ("list", "dict", "tuple", "str") and not v["v"] else t))
+                slot = (op["rec"], op["k"] == "set", k)
+                if slot in last:
+                    old = last[slot]
+                    if vkey(old) == vkey(v):
+                        f.add("same-value-written-again")
+                    elif py_equal(old, v):
+                        f.add("overwritten-by-==-value-of-other-type")
+                elif t == "none":
+                    f.add("None-written-to-new-key")
+                last[slot] = v
     return f
 
 
@@ -823,7 +1049,7 @@ def nontrivial(case):
 
 MANIFEST = dict(
     design_ref='6/C12',
-    text='Coq theorems over ALL reachable states of a producer/buffer/flusher transition system (any number of producers, any workloads of set_data/add_metadata/save with failing storage calls, any interleaving, any timer firing pattern): invariant applied++batch++buffer = enqueue order; when the flusher is done every accepted request was applied exactly once in enqueue order and the wrapped cassette and every outcome equal the synchronous run (sync_apply), also when callers keep changing a metadata dict after passing it (legacy defect F12 refuted with a witness, repaired by ba7c02c); failure does not block; producers blocked only inside the two-statement swap; termination within |buffer|+|batch|+8 flusher steps after close. Model tied to /repo on every run by driving the REAL AsyncRecordOnlyTapeCassette/AsyncRecording under deterministic schedules (cooperative scheduler over substituted Thread/Lock/Event, re-entrant spy cassette, sys.settrace line stepping): exhaustive token interleavings of small workloads, bounded-preemption exhaustive exploration at atomic and source-line granularity, seeded random walks, and long histories (10^2..10^4 requests, 1-3 producers) under schedules that leave hundreds to thousands of requests pending at close() or in one flush batch (timer never fires, flusher inside a storage call while the burst arrives, one big flush midway, rare timer); Coq replays every implementation trace (each step must be enabled) and compares applied order, outcomes, stored recordings. ast gate: every buffer access under the lock. Direct predicate on the implementation: exactly-once, per-producer and real-time order, contents == synchronous twin, no storage call on caller threads, callers never blocked by a storage call, no deadlock; thorough adds free-running real threads (also bursts of thousands of requests with a flush interval longer than the session).',
+    text='Coq theorems over ALL reachable states of a producer/buffer/flusher transition system (any number of producers, any workloads of set_data/add_metadata/save with failing storage calls, any interleaving, any timer firing pattern): invariant applied++batch++buffer = enqueue order; when the flusher is done every accepted request was applied exactly once in enqueue order and the wrapped cassette and every outcome equal the synchronous run (sync_apply), also when callers keep changing a metadata dict after passing it (legacy defect F12 refuted with a witness, repaired by ba7c02c); failure does not block; producers blocked only inside the two-statement swap; termination within |buffer|+|batch|+8 flusher steps after close. Model tied to /repo on every run by driving the REAL AsyncRecordOnlyTapeCassette/AsyncRecording under deterministic schedules (cooperative scheduler over substituted Thread/Lock/Event, re-entrant spy cassette, sys.settrace line stepping): exhaustive token interleavings of small workloads, bounded-preemption exhaustive exploration at atomic and source-line granularity, seeded random walks, and long histories (10^2..10^4 requests, 1-3 producers) under schedules that leave hundreds to thousands of requests pending at close() or in one flush batch (timer never fires, flusher inside a storage call while the burst arrives, one big flush midway, rare timer), and value-shape workloads (recorded values are Python values with their types, val := pyval: None, False/0/0.0/-0.0, True/1/1.0, ==-equal containers, empty containers, the same value written again - every ordered overwrite pair and every first write, unflushed and flushed in between, plus random shaped workloads); Coq replays every implementation trace (each step must be enabled) and compares applied order, outcomes, stored recordings. ast gate: every buffer access under the lock. Direct predicate on the implementation: exactly-once, per-producer and real-time order, contents == synchronous twin compared type-exactly (True is not 1, None is not "absent"), no storage call on caller threads, callers never blocked by a storage call, no deadlock; thorough adds free-running real threads (also bursts of thousands of requests with a flush interval longer than the session).',
     note='Trusted: Coq kernel + vm_compute; hand-written model; atomic-step reduction (argued, gated by the ast lock check); the cooperative scheduler and trace projection of the driver; join timeout expiry, daemon-thread death at interpreter exit and true parallel lock behaviour are runtime (partial).',
     technique='Coq proof (invariant over a step relation, refinement to a synchronous fold) + trace-replay correspondence by vm_compute + systematic schedule exploration of the real code',
 )
